@@ -6,21 +6,19 @@ LEVEL = 'model_checking'
 PID = 'C01'
 FAMILY = 'seq'
 PROPS = ['P_C01']
+BASE = [{'role': 'acc', 'bs': 42, 'chunk': 0}, {'role': 'acc', 'bs': 42, 'chunk': 2}]
+ALT = [{'role': 'init', 'bs': 44, 'chunk': 0}, {'role': 'init', 'bs': 40, 'chunk': 2}, {'role': 'acc', 'bs': 41, 'chunk': 1}, {'role': 'init', 'bs': 50, 'chunk': 0}, {'role': 'acc', 'bs': 44, 'chunk': 3}, {'role': 'init', 'bs': 42, 'chunk': 1}]
 
 
 def configs(ctx):
-    quick = ctx.tier == 'quick'
-    base = [dict(role='acc', bs=42, chunk=0), dict(role='acc', bs=42, chunk=2)]
-    alt = [dict(role='init', bs=44, chunk=0), dict(role='init', bs=40, chunk=2), dict(role='acc', bs=41, chunk=1),
-           dict(role='init', bs=50, chunk=0), dict(role='acc', bs=44, chunk=3), dict(role='init', bs=42, chunk=1)]
-    if quick:
-        return base + [alt[ctx.seed % len(alt)]]
-    return base + alt
+    if ctx.tier == 'quick':
+        return BASE + [ALT[(ctx.seed + i) % len(ALT)] for i in range(min(2, len(ALT)))]
+    return BASE + ALT
 
 
 def run(ctx):
-    sessfam.standard_run(ctx, PID, FAMILY, PROPS, configs(ctx),
-                         quick_budget=15000, thorough_budget=250000,
+    sessfam.standard_run(ctx, PID, FAMILY, PROPS, configs(ctx), quick_budget=15000, thorough_budget=250000,
+                         quick_bounds={'maxIn': 6, 'maxOut': 3}, thorough_bounds={'maxIn': 6, 'maxOut': 4},
                          statement='FromApp order / at-expected / advance-by-one / monotone counter')
 
 
